@@ -22,6 +22,14 @@ def gen_population(rng, kind, n):
         ll = [off + g(0, s) for _ in range(n)]
         lp = [g(0, 10) for _ in range(n)]
         lq = [g(0, 10) for _ in range(n)]
+    elif kind == "offset":
+        # a large COMMON offset with an ordinary spread: many samples share the weight, and any computation that does not remove
+        # the offset before exponentiating / subtracting loses the ESS in the rounding of numbers of size |offset|
+        off = rng.choice([-1, 1]) * rng.choice([3e3, 3e4, 1e5])
+        s = rng.choice([0.0, 0.5, 1.5])
+        ll = [off + g(0, s) for _ in range(n)]
+        lp = [g(0, 0.3) for _ in range(n)]
+        lq = [g(0, 0.3) for _ in range(n)]
     elif kind == "ties":
         vals = [g(0, 5) for _ in range(rng.choice([1, 2, 3]))]
         ll = [rng.choice(vals) for _ in range(n)]
@@ -87,7 +95,7 @@ def run(ctx):
     irx = json.loads(irxfile.read_text())["ir"] if irxfile.exists() else {}
     evx = translate.make_evaluator(irx)
 
-    ctx.rule = ("populations (ll,lp,lq) from one random.Random(VERIF_SEED): kinds moderate/large(|log w| up to 1e5)/ties/neginf "
+    ctx.rule = ("populations (ll,lp,lq) from one random.Random(VERIF_SEED): kinds moderate/large(|log w| up to 1e5)/offset(common offset up to 1e5, spread <= 1.5)/ties/neginf "
                 "x N x {numpy,torch,jax} x {float32,float64}; each case = one Samples object on which (a) the mpmath evaluation "
                 "of the translator's IR (the text the Coq theorems are about) and (b) the definitions in the property text are "
                 "compared with the implementation; distinct = distinct (kind,N,ns,width,first values); non-trivial = N>=2 and weights not all equal")
@@ -97,7 +105,7 @@ def run(ctx):
     NS = nsutil.namespaces()
     sizes = [2, 3, 7, 40] + ([400] if ctx.quick else [400, 2000, 5000])
     reps = 2 if ctx.quick else 6
-    kinds = ["moderate", "large", "ties", "neginf"]
+    kinds = ["moderate", "large", "offset", "ties", "neginf"]
     tie_ok = {}
     tie_cases = 0
 
@@ -133,6 +141,9 @@ def run(ctx):
                         if r == 0 and n == 3 and width == "float64":
                             ctx.sample(case)
                         rel = (5e-3 if width == "float32" else 1e-9) + 8 * n * eps
+                        # the ESS is a ratio of sums of max-shifted weights: its error does not grow with the size of the log-weights
+                        # ("accurate far outside the range of exp()"), so it gets a tolerance that does not either
+                        rel_ess = (2e-4 if width == "float32" else 1e-9) + 8 * n * eps
                         # ---------------- P1 log_w is ll+lp-lq of the same row
                         for i in range(n):
                             want = ll[i] + lp[i] - lq[i]
@@ -146,9 +157,9 @@ def run(ctx):
                         # ---------------- P2..P4 definitions, bounds, finiteness
                         if not close(le_impl, logz, rel, 16 * eps * M):
                             ctx.violation(f"log_evidence:{kind}:{nsname}:{width}", f"log_evidence {le_impl} != log mean w {float(logz)}", full)
-                        if not close(ess_impl, ess, rel):
+                        if not close(ess_impl, ess, rel_ess):
                             ctx.violation(f"ess:{kind}:{nsname}:{width}", f"ESS {ess_impl} != (sum w)^2/sum w^2 = {float(ess)}", full)
-                        if not (1 - rel <= ess_impl <= n * (1 + rel)):
+                        if not (1 - rel_ess <= ess_impl <= n * (1 + rel_ess)):
                             ctx.violation(f"ess-bounds:{kind}:{nsname}:{width}", f"ESS {ess_impl} outside [1,{n}]", full)
                         if n > 1 and not close(rel_impl, relerr, 20 * rel, 20 * rel):
                             ctx.violation(f"rel-error:{kind}:{nsname}:{width}", f"relative evidence error {rel_impl} != {float(relerr)}", full)
@@ -203,7 +214,7 @@ def run(ctx):
                                 tie("xcompute_weights_ess", close(evx("xcompute_weights_ess", **B), ess_impl, rel), str(case))
                             except Exception as e:
                                 tie("xcompute_weights_log_w", False, f"IR evaluation raised {e!r} on {case}")
-                        if kind in ("moderate", "large", "ties") and irall:
+                        if kind in ("moderate", "large", "offset", "ties") and irall:
                             tie_cases += 1
                             xs = list(range(n))
                             A = dict(x=xs, ll=nsutil.mpf_list(ll), lp=nsutil.mpf_list(lp), lq=nsutil.mpf_list(lq))
@@ -216,7 +227,11 @@ def run(ctx):
                                 tie("compute_weights_ess", close(ev("compute_weights_ess", **B), ess_impl, rel), str(case))
                                 tie("compute_weights_log_evidence_error", close(ev("compute_weights_log_evidence_error", **B), rel_impl, 20 * rel, 20 * rel), str(case))
                                 tie("logsumexp", close(ev("logsumexp", x=lw_mp), nsutil.to_float(au.logsumexp(s.log_w)), rel, 16 * eps * M), str(case))
-                                tie("effective_sample_size", close(ev("effective_sample_size", log_w=lw_mp), nsutil.to_float(au.effective_sample_size(s.log_w)), rel), str(case))
+                                # the free helper is handed max-shifted log-weights, as its callers in the library do (on raw float32
+                                # log-weights of size 1e5 the helper itself loses the ESS in rounding: not the sample set's ESS, not claimed)
+                                lw_sh = s.log_w - s.xp.max(s.log_w)
+                                tie("effective_sample_size", close(ev("effective_sample_size", log_w=nsutil.mpf_list(nsutil.to_list(lw_sh))),
+                                                                   nsutil.to_float(au.effective_sample_size(lw_sh)), rel), str(case))
                                 g_sw = ev("scaled_weights", log_w=lw_mp)
                                 tie("scaled_weights", all(close(a, b, rel, 1e-30) for a, b in zip(g_sw, sw)), str(case))
                                 if max(abs(v) for v in lw_impl) < (60 if width == "float32" else 600):
